@@ -1,7 +1,7 @@
 (* Decidable premises of the runtime theorems, evaluated by vm_compute on every real instance. *)
 From Coq Require Import List String NArith Arith Bool.
 Import ListNotations.
-From IT Require Import Sdpl.IR Sdpl.Elab Runtime.Actor Runtime.ActorInv.
+From IT Require Import Sdpl.IR Sdpl.Elab Runtime.Actor Runtime.ActorInv Runtime.Combined Runtime.InvDefs2.
 Open Scope string_scope.
 
 Definition is_nil {X} (l : list X) : bool := match l with [] => true | _ => false end.
@@ -58,3 +58,49 @@ Definition wf_struct (m : model) : bool :=
 
 (* C08: every handle method sends with a blocking send on the handle's own sender; the capacity is a literal *)
 Definition wf_C08 (m : model) : bool := wf_struct m && all_blocking (elab m).
+
+(* replies: every value-returning handle method waits on the oneshot whose sender the arm answers on *)
+Definition replies_own (r : rmodel) : bool := forallb (fun rm => implb (rm_reply rm) (rm_reply_own rm)) (r_meths r).
+Definition waits_loud (r : rmodel) : bool := forallb rm_loud_wait (r_meths r).
+
+(* C01: the skeleton is the single-threaded play loop; arguments and replies are routed by position *)
+Definition wf_C01 (m : model) : bool := wf_struct m && routes_ok (elab m) && replies_own (elab m) && waits_loud (elab m).
+(* C02: additionally every handle method hands its message to the channel (blocking send) before it returns or waits *)
+Definition wf_C02 (m : model) : bool := wf_C01 m && all_blocking (elab m).
+Definition wf_C03 (m : model) : bool := wf_C02 m.
+
+(* C20: every send, wait and actor-side reply panics on a closed channel, and says so *)
+Definition says_closed (o : onclosed) : bool := match o with ClosedPanic b => b | _ => false end.
+Definition body_says_closed (b : body) : bool :=
+  match b with
+  | BRef rb | BStop rb _ _ =>
+      says_closed (sd_closed (rb_send rb)) && match rb_tail rb with TWait _ _ o => says_closed o | _ => true end
+  | _ => true end.
+Definition wf_C20 (m : model) : bool :=
+  wf_struct m && loud (elab m) && replies_own (elab m) && forallb (fun lm => body_says_closed (lm_body lm)) (m_methods m)
+  && forallb (fun rm => rm_loud_reply rm) (r_meths (elab m)).
+
+(* C09: self-consuming methods: stop message intercepted before dispatch; guard `inter_get_count() <= 1` present exactly when
+   the handle is clonable; the stop call binds the actor first and invokes the user method on it *)
+Definition slf_shape_ok (m : model) (b : slf_body) : bool :=
+  String.eqb (sb_stop_on b) "self"
+  && match sb_binds b, sb_call b with
+     | a :: _, UMethod (SVar r) _ _ => String.eqb a r && negb (String.eqb a "_")
+     | a :: _, UStatic _ _ (SVar r :: _) => String.eqb a r
+     | _, _ => false end.
+Definition has_slf (m : model) : bool := negb (is_nil (slf_bodies m)).
+Definition stop_method_ok (m : model) : bool :=
+  existsb (fun lm => match lm_body lm with
+                     | BStop rb binds ret =>
+                         match rb_msg rb, binds, ret, rb_tail rb with
+                         | MVariant _ v [(f, SVar tx)], [a; r], SVar a' :: SVar r' :: _, TWait (SVar rx) _ _ =>
+                             String.eqb a a' && String.eqb r r'
+                             && match rb_pre rb with [POneshot tx0 rx0 _ _] => String.eqb tx tx0 && String.eqb rx rx0 | _ => false end
+                             && match find_arm v (m_arms m) with Some (ArmSkip _) => true | _ => false end
+                             && match sd_kind (rb_send rb) with SendBlocking => true | _ => false end
+                         | _, _, _, _ => false end
+                     | _ => false end) (m_methods m).
+Definition wf_C09 (m : model) : bool :=
+  wf_struct m && forallb (slf_shape_ok m) (slf_bodies m)
+  && implb (has_slf m) (stop_first m && stop_method_ok m)
+  && Bool.eqb (r_clonable (elab m)) (r_guard (elab m) || negb (has_slf m)).
